@@ -151,3 +151,17 @@ MANIFEST_TEXT["C17"] = {
   "text": "The disconnection was injected after every bounded history and for expiry 0 / finite (before and after expiry) / never; the second connection's wire and the completion of the original futures were compared with the model.",
   "note": "Trusted: harness, reference codec, model, hook H1 (sets the disconnection timestamp, nothing else). Not asserted (not stated by the property): quota after resume, CONNACK without session present, differing expiry intervals.",
   "technique": RM + "crash-point enumeration + wire-trace comparison against a model of unfinished handshakes"}
+
+add("C01", "exploration",
+    "for every generated request (per request type: the empty request, every single optional field with every boundary value, every pair, all-but-one, all, PRNG subsets; strings/binaries of 0/1/127/128/16383/16384/65535 bytes incl. multi-byte UTF-8; "
+    "integer extremes; every QoS / retain / subscription option / reason value; lengths steered across the 1/2/3(/4)-byte variable-byte-integer steps; identifiers seeded across their boundaries through hook H2) the bytes received by the AsyncWrite mock "
+    "are split and strictly decoded by the independent reference decoder (remaining length and property length must equal exactly what follows; reserved bits; legal properties) and compared field by field with the request; "
+    "requests missing a mandatory part must be refused with nothing written. Fragmentation: PRNG multi-request scripts under partial / pending / stalled writers, wire must remain whole packets in submission order. "
+    "distinct = distinct request specs (index within its generator) / abstract trace shapes for the fragmentation scripts.",
+    {"quick": ["checked"], "thorough": ["checked", "fast"]},
+    {"quick": {"packets_decoded_and_matched": 3000, "requests_expected_refused": 20}, "thorough": {"packets_decoded_and_matched": 100000}},
+    ["AuthOpts::reason_string cannot be exercised: the method consumes the builder and returns ()", "strings are valid UTF-8 without U+0000 (the API takes &str); empty topic names only together with a topic alias; will options only as a complete will (topic + payload)"])
+MANIFEST_TEXT["C01"] = {
+  "text": "Held for every generated request and fragmentation script: each written packet was accepted by a strict independent decoder and equalled the request field by field; incomplete requests were refused before writing.",
+  "note": "Trusted: the reference decoder (self-tested every run), mocks. An input-space sweep, not a proof: values outside the boundary pools are only sampled by the PRNG.",
+  "technique": RM + "round-trip of written bytes through an independent strict MQTT 5 decoder, boundary-value sweep + random sampling"}
